@@ -13,6 +13,8 @@ mod tygen;
 mod c17;
 #[cfg(feature = "full")]
 mod c27;
+#[cfg(feature = "full")]
+mod c12;
 
 use util::*;
 
@@ -73,6 +75,8 @@ fn main() {
         "c17" => c17::run(&args),
         #[cfg(feature = "full")]
         "c27" => c27::run(&args),
+        #[cfg(feature = "full")]
+        "c12" => c12::run(&args),
         other => {
             eprintln!("unknown check {other}");
             std::process::exit(2);
